@@ -846,82 +846,91 @@ func TestC19(t *testing.T) {
 
 	bounds := map[string]int{}
 	var traces, nontrivial, queries, answered, refused, superseded int64
+	worlds := map[string]*world{}
+	maxDepth := 0
 	for _, sc := range scs {
-		sc := sc
 		w := newWorld(sc)
 		w.checkPrereqs(baseDir)
-		depth := r.Pick(sc.depthQ, sc.depthT)
-		n := len(sc.pool)
-		bounds[sc.Name+"_pool"] = n
-		bounds[sc.Name+"_depth"] = depth
+		worlds[sc.Name] = w
+		d := r.Pick(sc.depthQ, sc.depthT)
+		bounds[sc.Name+"_pool"] = len(sc.pool)
+		bounds[sc.Name+"_depth"] = d
 		bounds[sc.Name+"_queries"] = len(sc.queries)
-		// work items: all prefixes of length <= 2 are roots of independent subtrees (the empty trace is item 0)
-		var roots [][]int
-		roots = append(roots, []int{})
-		for a := 0; a < n; a++ {
-			roots = append(roots, []int{a})
-			if depth >= 2 {
-				for b := 0; b < n; b++ {
-					roots = append(roots, []int{a, b})
-				}
-			}
+		if d > maxDepth {
+			maxDepth = d
 		}
-		var completedDepth int64 = int64(depth)
-		eng.ParallelFor(len(roots), func(ri int) {
-			root := roots[ri]
-			var st traceStats
-			var nt, ntr, nref, nsup int64
-			var rec func(path []int)
-			rec = func(path []int) {
-				if r.TimeUp() {
-					atomic.StoreInt64(&completedDepth, -1)
-					return
-				}
-				fs, ref, last, heldBefore := w.runTrace(baseDir, path, &st)
-				ntr++
-				r.Distinct("state", sc.Name+"|"+ref.stateKey())
-				if len(path) > 0 {
-					r.Distinct("add_outcome", last)
-					switch {
-					case last != "ok":
-						nref++
-						nt++
-					case heldBefore:
-						nsup++
-						nt++
+		r.Sample(map[string]interface{}{"scenario": sc.Name, "pool": w.pathLabels(seqInts(len(sc.pool))), "example_query": sc.queries[0].String()})
+	}
+	// iterative deepening across the scenarios: all sequences of length L of every scenario before length L+1,
+	// so that a time cap on a loaded machine leaves every scenario explored to a stated, complete depth
+	completed := map[string]int{}
+	stopped := false
+	for L := 0; L <= maxDepth && !stopped; L++ {
+		for _, sc := range scs {
+			if L > r.Pick(sc.depthQ, sc.depthT) {
+				continue
+			}
+			sc := sc
+			w := worlds[sc.Name]
+			n := len(sc.pool)
+			total := 1
+			for i := 0; i < L; i++ {
+				total *= n
+			}
+			const block = 16
+			var timedOut int32
+			eng.ParallelFor((total+block-1)/block, func(bi int) {
+				var st traceStats
+				var nt, ntr, nref, nsup int64
+				for idx := bi * block; idx < (bi+1)*block && idx < total; idx++ {
+					if r.TimeUp() {
+						atomic.StoreInt32(&timedOut, 1)
+						break
+					}
+					path := make([]int, L)
+					for k, x := L-1, idx; k >= 0; k-- {
+						path[k] = x % n
+						x /= n
+					}
+					fs, ref, last, heldBefore := w.runTrace(baseDir, path, &st)
+					ntr++
+					r.Distinct("state", sc.Name+"|"+ref.stateKey())
+					if L > 0 {
+						r.Distinct("add_outcome", last)
+						switch {
+						case last != "ok":
+							nref++
+							nt++
+						case heldBefore:
+							nsup++
+							nt++
+						}
+					}
+					for _, f := range fs {
+						c := c19Case{Scenario: sc.Name, Path: w.pathLabels(path), Where: f.where, Observed: f.observed, Expected: f.expected}
+						r.Violation(sc.Name+":"+strings.Join(c.Path, ">")+":"+f.where, fmt.Sprintf("observed %s, expected %s", f.observed, f.expected), c)
 					}
 				}
-				for _, f := range fs {
-					c := c19Case{Scenario: sc.Name, Path: w.pathLabels(path), Where: f.where, Observed: f.observed, Expected: f.expected}
-					r.Violation(sc.Name+":"+strings.Join(c.Path, ">")+":"+f.where, fmt.Sprintf("observed %s, expected %s", f.observed, f.expected), c)
-				}
-				if len(root) < 2 {
-					return // the children of short roots are roots themselves
-				}
-				if len(path) >= depth {
-					return
-				}
-				for i := 0; i < n; i++ {
-					rec(append(append([]int(nil), path...), i))
-				}
+				atomic.AddInt64(&traces, ntr)
+				atomic.AddInt64(&nontrivial, nt)
+				atomic.AddInt64(&refused, nref)
+				atomic.AddInt64(&superseded, nsup)
+				atomic.AddInt64(&queries, st.queries)
+				atomic.AddInt64(&answered, st.answered)
+			})
+			if atomic.LoadInt32(&timedOut) != 0 {
+				stopped = true
+				break
 			}
-			rec(root)
-			atomic.AddInt64(&traces, ntr)
-			atomic.AddInt64(&nontrivial, nt)
-			atomic.AddInt64(&refused, nref)
-			atomic.AddInt64(&superseded, nsup)
-			atomic.AddInt64(&queries, st.queries)
-			atomic.AddInt64(&answered, st.answered)
-		})
-		if atomic.LoadInt64(&completedDepth) < 0 {
-			r.Cap("time", fmt.Sprintf("scenario %s stopped early at depth bound %d", sc.Name, depth))
-		}
-		if r.WantSample() {
-			r.Sample(map[string]interface{}{"scenario": sc.Name, "pool": w.pathLabels(seqInts(n)), "example_query": sc.queries[0].String()})
+			completed[sc.Name] = L
 		}
 	}
+	r.Info("completed_depth", completed)
+	if stopped {
+		r.Cap("time", map[string]interface{}{"completed_depth_per_scenario": completed, "note": "all Add sequences up to the completed depth were explored; the next length was cut"})
+	}
 	r.Add("traces_validated_against_impl", traces)
-	r.Add("transitions", traces-int64(len(scs)))
+	r.Add("transitions", traces-int64(len(scs))) // every trace but the empty ones ends in one new Add transition
 	r.Add("states", int64(r.DistinctCount("state")))
 	r.Add("evaluations", traces)
 	r.Add("queries_compared_on_2_stores", queries)
